@@ -104,7 +104,7 @@ func check(id, tier string) int {
 		fmt.Fprintf(os.Stderr, "unknown tier %s\n", tier)
 		return 2
 	}
-	archs := []string{""}
+	archs := append([]string{""}, rules.ExtraArchs[id]...)
 	if tier == "thorough" {
 		archs = []string{"", "386", "arm64"}
 	}
